@@ -200,6 +200,118 @@ def _profile(ctx, kind):
     ctx.bound("arbitrary clock, certificate timer, pending-request flag, one pending unknown ticket / requested CA (present or not); ITS-AID 0..1000; ticket content symbolic")
 
 
+def _replay_accept(kind, h):
+    """real SignService -> real VerifyService: fake injective coder, an ideal signature backend (verify(d, s, pk) holds iff s is what sign returned for d
+    under the ticket whose verification key is pk; certificate signatures of the honest chain hold), a receiver library that resolves the ticket"""
+    import flexstack.security.verify_service as VS_
+
+    def f(vals):
+        from unittest import mock
+        with fake_coder():
+            signed = {}
+
+            class B:
+                def sign(self, data, key):
+                    sig = ("ecdsaNistP256Signature", {"rSig": ("x-only", bytes([len(signed) + 1]) * 32), "sSig": b"\x02" * 32})
+                    signed[bytes(data)] = (sig, key)
+                    return sig
+
+                def verify_with_pk(self, data=None, signature=None, pk=None):
+                    if bytes(data).startswith(b"encode_ToBeSignedCertificate"):
+                        return True          # honest certificate chain (assumption of the VC: the ticket verifies under its AA)
+                    rec = signed.get(bytes(data))
+                    return rec is not None and rec[0] == signature and rec[1] == vals["own_key_id"] and pk == own_d["toBeSigned"]["verifyKeyIndicator"][1]
+            own_d, aa_d = build_cert(vals, "own_at"), build_cert(vals, "own_aa")
+            aa = Certificate(certificate=aa_d)
+            if own_d["issuer"][0] != "self":
+                own_d["issuer"] = (own_d["issuer"][0], aa.as_hashedid8())
+            own = OwnCertificate(certificate=own_d, issuer=aa, key_id=vals["own_key_id"])
+            lib = mock.Mock()
+            lib.own_certificates = {own.as_hashedid8(): own}
+            lib.get_ca_certificate_by_hashedid3.return_value = Certificate(certificate=build_cert(vals, "held_ca"))
+            backend = B()
+            svc = SignService(backend, lib)
+            svc.cam_handler.last_signer_full_certificate_time = vals["last_full_certificate_time"]
+            svc.cam_handler.requested_own_certificate = vals["requested_own_certificate"]
+            svc.unknown_ats = [vals["unknown_at_hashedid3"].to_bytes(3, "big")] if vals["has_unknown_at"] else []
+            svc.requested_ats = [vals["requested_ca_hashedid3"].to_bytes(3, "big")] if vals["has_requested_ca"] else []
+            times = [vals[n] for n in sorted(h.clock.vars(), key=lambda x: int(x[3:]))] or [1.7e9]
+
+            def tm():
+                return times.pop(0) if len(times) > 1 else times[0]
+            captured = []
+            loc = {"latitude": 1, "longitude": 2, "elevation": 0xF000} if kind == "denm" else None
+            payload = b"P" + (int(vals.get("tbs_message", 1)) % 2 ** 48).to_bytes(6, "big")
+            rq = SNSIGNRequest(tbs_message_length=len(payload), tbs_message=payload, its_aid=vals["its_aid"], permissions_length=0, permissions=b"", generation_location=loc)
+            with mock.patch.object(TimeService, "time", staticmethod(tm)), \
+                    mock.patch.object(SS.SECURITY_CODER, "encode_etsi_ts_103097_data_signed", lambda d: (captured.append(d), b"wire")[1]):
+                try:
+                    {"cam": svc.sign_cam, "denm": svc.sign_denm, "other": svc.sign_other}[kind](rq)
+                except Exception as e:          # noqa
+                    return False, f"{kind}: the signer raised {e!r} (not this obligation)"
+            if not captured:
+                return False, f"{kind}: nothing was signed"
+            msg = captured[-1]
+            # receiver: resolves the ticket (by digest or from the certificate in the message); same ideal backend
+            rlib = mock.Mock()
+            ticket = Certificate(certificate=own_d, issuer=aa)
+            rlib.verify_sequence_of_certificates.return_value = ticket
+            rlib.get_authorization_ticket_by_hashedid8.return_value = ticket
+            vs = VerifyService(backend, rlib, None)
+            with mock.patch.object(TimeService, "time", staticmethod(tm)), \
+                    mock.patch.object(VS_.SECURITY_CODER, "decode_etsi_ts_103097_data_signed", lambda b: msg):
+                try:
+                    conf = vs.verify(SNVERIFYRequest(0, b"", 4, b"wire"))
+                except Exception as e:          # noqa
+                    return True, f"{kind}: the receiver raised {type(e).__name__}: {e} on the message an honest signer produced"
+            bad = []
+            if conf.report != ReportVerify.SUCCESS:
+                bad.append(f"report {conf.report} for the message of an honest signer (signer {msg['content'][1]['signer'][0]}, header {sorted(msg['content'][1]['tbsData'].get('headerInfo', {}))})")
+            elif conf.plain_message != payload:
+                bad.append("delivered payload differs from the request's")
+        return bool(bad), f"{kind}: " + ("; ".join(bad) or "accepted, payload unchanged")
+    return f
+
+
+def _replay_notify(which):
+    """real SignService (fake injective coder for the HashedId8 of the own ticket) in the model's P2PCD state; one real notification"""
+    def f(vals):
+        from unittest import mock
+        with fake_coder():
+            own_d = build_cert(vals, "own_at")
+            own = OwnCertificate(certificate=own_d, issuer=None, key_id=vals.get("own_key_id", 1))
+            lib = mock.Mock()
+            lib.own_certificates = {own.as_hashedid8(): own}
+            lib.get_ca_certificate_by_hashedid3.return_value = None
+            svc = SignService(mock.Mock(), lib)
+            svc.cam_handler.requested_own_certificate = bool(vals.get("requested_own_certificate"))
+            svc.unknown_ats = [vals["unknown_at_hashedid3"].to_bytes(3, "big")] if vals.get("has_unknown_at") else []
+            svc.requested_ats = [vals["requested_ca_hashedid3"].to_bytes(3, "big")] if vals.get("has_requested_ca") else []
+            own3 = own.as_hashedid8()[-3:]
+            if which == "unknown_at":
+                # the model's HashedId3 of the seen digest is an uninterpreted function of it: build a digest whose last three octets are that value
+                h8 = (int(vals["seen_hashedid8"]) % 2 ** 40).to_bytes(5, "big") + (int(vals["seen_low3"]) % 2 ** 24).to_bytes(3, "big")
+                svc.notify_unknown_at(h8)
+                bad = []
+                if h8[-3:] not in svc.unknown_ats:
+                    bad.append("the HashedId3 of the unknown ticket is not queued for the next inlineP2pcdRequest")
+                if not svc.cam_handler.requested_own_certificate:
+                    bad.append("the own certificate is not scheduled for the next CAM")
+                return bool(bad), "notify_unknown_at: " + ("; ".join(bad) or "as required")
+            other = int(vals["other_hashedid3"]).to_bytes(3, "big")
+            names_own = bool(vals["request_names_own_ticket"])
+            before = svc.cam_handler.requested_own_certificate
+            svc.notify_inline_p2pcd_request(([own3] if names_own else []) + [other])
+            after = svc.cam_handler.requested_own_certificate
+            bad = []
+            if names_own and not after:
+                bad.append("a request naming the own ticket does not schedule the certificate")
+            if not names_own and other != own3 and not before and after:
+                bad.append("a request for other tickets only schedules the own certificate")
+            return bool(bad), "notify_inline_p2pcd_request: " + ("; ".join(bad) or "as required")
+    return f
+
+
 def _replay_profile(kind, h):
     """real SignService with an injective fake coder, a recording backend and the model's timer / P2PCD state"""
     def f(vals):
@@ -346,8 +458,9 @@ def accepted(ctx):
         exc_ver = cond_or(c for c, _ in I.raises[n0:])
         ok = report_is(I, conf, ReportVerify.SUCCESS)
         vars_ = h.vars()
-        nope = lambda v, kind=kind: (True, f"{kind}: the message produced by the signer is not accepted by a receiver that can resolve the ticket (logic-level model)")
-        ctx.witness(f"{kind}-reach", I, z3.And(pc_enc, ok), vars=vars_)
+        vars_.update(h.aa.vars())
+        nope = _replay_accept(kind, h)
+        ctx.witness(f"{kind}-reach", I, z3.And(pc_enc, ok), vars=vars_, validate=lambda v, rp=nope: not rp(v)[0], good=TRUE)
         ctx.prove(f"{kind}-accepted-by-a-receiver-that-resolves-the-ticket", I, z3.And(pc_enc, z3.Not(exc_sign), z3.Or(exc_ver, z3.Not(ok))), vars=vars_, replay=nope,
                   desc="with the axiom verify(d, sign(d,k), pub(k)) the message is reported SUCCESS: its header satisfies the receiver's profile checks, the signature is over the tbsData that is sent")
         ctx.prove(f"{kind}-payload-unchanged", I, z3.And(pc_enc, ok, z3.Not(blob_is(I, field_of(conf, "plain_message"), h.payload))), vars=vars_, replay=nope)
@@ -413,7 +526,7 @@ def p2pcd(ctx):
     in_list = I2._lb(I2.contains(s.svc.fields["unknown_ats"], K2.blob(low, "low3", length=3)))
     ctx.witness("signer-reach", I2, TRUE)
     ctx.prove("unknown-ticket-is-requested-and-own-certificate-scheduled", I2, z3.Or(z3.Not(in_list), z3.Not(I2.to_bool(s.cam.fields["requested_own_certificate"]))),
-              vars=s.vars(), replay=lambda v: (True, "notify_unknown_at did not queue the HashedId3 / schedule the own certificate"), desc="notify_unknown_at: the HashedId3 is queued for the next inlineP2pcdRequest and the own certificate is scheduled for the next CAM")
+              vars=dict(s.vars(), seen_hashedid8=h8.term, seen_low3=low), replay=_replay_notify("unknown_at"), desc="notify_unknown_at: the HashedId3 is queued for the next inlineP2pcdRequest and the own certificate is scheduled for the next CAM")
     s = SignHarness()
     I3, K3 = s.I, s.K
     own3 = K3.blob(K3.low3(s.M.hid_of(s.own.d).term), "low3", length=3)
@@ -423,7 +536,8 @@ def p2pcd(ctx):
     v3 = s.vars()
     v3["request_names_own_ticket"] = has_own
     after = I3.to_bool(s.cam.fields["requested_own_certificate"])
-    nope3 = lambda v: (True, "notify_inline_p2pcd_request deviates (logic-level model)")
+    v3["other_hashedid3"] = other3.term
+    nope3 = _replay_notify("inline_request")
     ctx.prove("inline-request-for-own-ticket-schedules-the-certificate", I3, z3.And(has_own, z3.Not(after)), vars=v3, replay=nope3,
               desc="notify_inline_p2pcd_request naming the HashedId3 of the own ticket makes the next CAM carry the certificate (P1 then includes it)")
     ctx.prove("inline-request-for-others-changes-nothing", I3, z3.And(z3.Not(has_own), other3.term != own3.term, z3.Not(s.requested_own), after), vars=v3, replay=nope3)
